@@ -53,11 +53,12 @@ def oracle_history(mops, replies, now):
     """C08 evaluated on the implementation's own answers. Returns (why, signature) or None."""
     cur = fin = None
     sut = None
+    fin_group = None     # nodes of the group stored by the last successful completion (what the code calls the current members)
     for op, rep in zip(mops, replies):
         f = op.split()
         if f[0] in ("now", "P", "reset"):
             if f[0] == "reset":
-                cur = fin = None
+                cur = fin = fin_group = None
                 sut = f[2]
             continue
         cls, ncur, nfin = dkggen.parse_reply(rep)
@@ -80,6 +81,8 @@ def oracle_history(mops, replies, now):
                 return (f"{op}: completion stored an incomplete record {nfin}", "completion-not-whole")
             if fin is not None and not nfin["epoch"] > fin["epoch"]:
                 return (f"{op}: completed epoch went from {fin['epoch']} to {nfin['epoch']}", "finished-not-later")
+            g = f[1].split(":") if f[1].startswith("G:") else None
+            fin_group = [x for x in g[4].split(",") if x] if g and len(g) > 4 else None
         # legal transitions
         if ncur != cur and ncur is not None and ncur["state"] != src["state"]:
             if ncur["state"] not in TABLE[src["state"]]:
@@ -115,7 +118,8 @@ def oracle_history(mops, replies, now):
             elif t["epoch"] < src["epoch"] or (t["epoch"] == src["epoch"]):
                 why = f"stale epoch {t['epoch']} accepted on top of {src['epoch']}"
             elif src["state"] == "Complete":
-                members = {addr_of(x) for x in (src["R"] + src["J"])}
+                # the current members are the nodes of the completed group (a subset of remaining + joining: the qualified ones)
+                members = {addr_of(x) for x in (fin_group if fin_group is not None else src["R"] + src["J"])}
                 named = {addr_of(x) for x in t["R"] + t["V"]}
                 if t["genesis"] != src["genesis"] or t["seed"] != src["seed"]:
                     why = "a member accepted changed genesis parameters"
